@@ -387,6 +387,39 @@ func streamC07(env *runEnv) {
 func init() { streams["c01gw"] = func(env *runEnv) { srv := newL2Server(true, 0); defer srv.close(); inAgainCases(env, srv) } }
 
 func inAgainCases(env *runEnv, srv *l2server) {
+	// a websocket request that carries the connection id of a live legacy tunnel starts from the beginning:
+	// DATA as its first packet is refused and nothing reaches the legacy tunnel's host
+	{
+		b := newTagBackend(nil)
+		host, port := splitHostPort(b.addr)
+		id := fmt.Sprintf("{shared-id-%d}", env.seed)
+		obs := "setup-failed"
+		if l, err := legacyDial(srv.inst, id, nil); err == nil {
+			send := func(p []byte) { l.send(p); time.Sleep(15 * time.Millisecond); l.recv(2 * time.Second) }
+			send(packet(ptHandshake, handshakeBody(1, 0, 0, 2)))
+			send(packet(ptTunnelCreate, tunnelCreateBody(0, "ok|u|"+b.addr, true)))
+			send(packet(ptTunnelAuth, tunnelAuthBody("pc")))
+			send(packet(ptChannelCreate, channelCreateBody(host, port)))
+			_, before, _ := b.snapshot()
+			obs = "second-in-refused"
+			if ws, st, _, err := wsDial(srv.inst, wsOpts{connID: id}); err == nil && st == 101 {
+				ws.send(packet(ptData, dataBody([]byte("<without-any-sequence>"))))
+				ws.send(packet(ptCloseChannel, nil))
+				if m, e := ws.recv(time.Second); e == nil && len(m) >= 2 && int(m[0])|int(m[1])<<8 == 0x11 {
+					obs = "close-answered-without-sequence"
+				}
+				time.Sleep(100 * time.Millisecond)
+				ws.close()
+			}
+			if _, after, _ := b.snapshot(); len(after) > len(before) {
+				obs = "relayed-without-sequence"
+			}
+			l.close()
+		}
+		env.count("c07.shared-id")
+		env.emit("inagain", "websocket-with-the-id-of-a-live-legacy-tunnel", obs)
+		b.close()
+	}
 	// an inbound request that arrives before its outbound channel exists is refused at once and stays
 	// refused: it must not be attached to whichever outbound channel opens next
 	for k := 0; k < 2; k++ {
